@@ -58,6 +58,7 @@ type Case struct {
 	Blob     bool   `json:"blob"`
 	Rows     int    `json:"rows"`
 	Pending  bool   `json:"pending"` // revert: two commits so that one stays pending
+	Wide     bool   `json:"wide"`    // a table whose rows exceed the 2 KiB tuple target with a dozen ~200-byte TEXT columns
 	CommitC  bool   `json:"commitc"` // revert_foreign: commit the conflicted state (merge state cleared, artifacts stay)
 }
 
@@ -104,6 +105,7 @@ type Obs struct {
 	Kinds       map[string]int `json:"kinds"`
 	Reachable   int            `json:"reachable"`
 	Trees       int            `json:"trees"`
+	SmallOOB    int            `json:"small_oob"` // out-of-band adaptive values with a one-byte length prefix (value of 21..240 bytes) read back
 }
 
 // ---------------------------------------------------------------------------
@@ -481,6 +483,22 @@ func script(c Case) []string {
 			vals = nil
 		}
 	}
+	if c.Wide {
+		// wide rows: the inline tuple would exceed the tuple length target, so TupleBuilder moves some of the
+		// ~200-byte TEXT values out of band (adaptive encoding with a one-byte length prefix)
+		cols := []string{"id int primary key"}
+		for i := 1; i <= 12; i++ {
+			cols = append(cols, fmt.Sprintf("t%d text", i))
+		}
+		q = append(q, "create table wd ("+strings.Join(cols, ", ")+")")
+		for r := 1; r <= 4; r++ {
+			vals := []string{fmt.Sprintf("%d", r)}
+			for i := 1; i <= 12; i++ {
+				vals = append(vals, fmt.Sprintf("repeat('%c%d.', %d)", 'a'+i, r, 50+r+i))
+			}
+			q = append(q, "insert into wd values ("+strings.Join(vals, ", ")+")")
+		}
+	}
 	q = append(q, "insert into u values (1,1)", "call dolt_commit('-Am','base')")
 	if c.Tag {
 		q = append(q, "call dolt_tag('v1')", "call dolt_tag('v2','HEAD','-m','annotated')")
@@ -592,6 +610,8 @@ func Run(raw json.RawMessage) (any, error) {
 // Examine fills obs from the store (cs unrecorded, rec/rdb recording view of the same store).
 func Examine(ctx context.Context, cs chunks.ChunkStore, rec *RecCS, rdb *doltdb.DoltDB, obs *Obs) error {
 	nm := &numbering{m: map[hash.Hash]int{}}
+	smallOOB = 0
+	defer func() { obs.SmallOOB = smallOOB }()
 	root, err := cs.Root(ctx)
 	if err != nil {
 		return err
@@ -847,7 +867,7 @@ func Examine(ctx context.Context, cs chunks.ChunkStore, rec *RecCS, rdb *doltdb.
 	tables := byKind[serial.TableFileID]
 	sort.SliceStable(tables, func(i, j int) bool { return tableRank(ctx, cs, tables[i]) > tableRank(ctx, cs, tables[j]) })
 	for i, h := range tables {
-		if i >= 8 {
+		if i >= 40 {
 			break
 		}
 		h := h
@@ -1079,7 +1099,15 @@ func readMap(ctx context.Context, sctx *sql.Context, ns tree.NodeStore, m prolly
 	return nil
 }
 
+// smallOOB counts the out-of-band adaptive values with a one-byte length prefix seen by readTuple
+var smallOOB int
+
 func readTuple(ctx context.Context, sctx *sql.Context, ns tree.NodeStore, td *val.TupleDesc, t val.Tuple) {
+	val.IterAdaptiveFields(td, func(j int, _ val.Type) {
+		if av := val.AdaptiveValue(t.GetField(j)); av.IsOutOfBand() && len(av) == hash.ByteLen+1 {
+			smallOOB++
+		}
+	})
 	for i := 0; i < td.Count(); i++ {
 		v, err := tree.GetField(ctx, td, i, t, ns)
 		if err != nil || v == nil {
